@@ -356,6 +356,27 @@ def run(tier, seed, replay=None):
                     else:
                         R.violation({'sql': sql, 'catalog': cname, 'namespace': ns, 'predictor': str(st.predictor),
                                      'what': 'a model is applied in a namespace that is not a project'})
+    # ---------------- the routing does not depend on how the catalog was supplied: the same statement planned with the catalog
+    # given as names, as dicts and with legacy-dict predictor metadata gives the same plan (or the same refusal)
+    import c12
+
+    def dump_for(sql_, cn_):
+        try:
+            pl_ = plan_query(parse_sql(sql_, 'mindsdb'), **copy.deepcopy(catd[cn_]))
+            return [c12.dump_step(s_) for s_ in pl_.steps]
+        except Exception as e_:
+            return f'{type(e_).__name__}: {str(e_)[:120]}'
+    forms = [c for c in ('names', 'dicts', 'legacy') if c in catd]
+    nform = 0
+    if len(forms) > 1:
+        for sql in list(dict.fromkeys(s for s, _ in inputs))[: (250 if tier == 'quick' else 3000)]:
+            dumps = {c: dump_for(sql, c) for c in forms}
+            nform += 1
+            if len({json.dumps(v) for v in dumps.values()}) > 1 and len(R.violations) < 6:
+                R.violation({'sql': sql, 'plans_by_catalog_form': dumps,
+                             'what': 'the plan depends on how the catalog was supplied (integration names vs dicts, predictor metadata as list vs legacy dict)'})
+    stats['planned_under_every_catalog_form'] = nform
+    R.obligation(f'judge: {nform} statements give the same plan under the catalog forms {forms}', True)
     # Coq judge: the step's integration is a database of the catalog; every table inside the step is the stripped form of
     # an original table that the specification routes to this integration
     names_ = []
